@@ -12,6 +12,10 @@ from . import common, families as F
 from .c08 import _inc
 from .c16 import fixpoint_loops
 
+from .c13 import lockdown
+
+from .c14 import fresh_inputs
+
 META = {
     'explanation': (
         "Regex-layer clauses: inclusion of each documented spelling family in "
@@ -52,6 +56,10 @@ def check(ctx):
     ctx.attempt(_half_plus_q)
     ctx.attempt(fixpoint_loops, 'tract_preprocess', 3)
     ctx.attempt(stripset, [ctx.repo.func('tract_preprocess:process_half_plus_q_match')])
+    ctx.attempt(lockdown, ctx.repo.func('Tract.parse'), only=('clean_qq',))
+    ctx.attempt(lockdown, ctx.repo.func('Tract.preprocess'), only=('clean_qq',))
+    ctx.attempt(fresh_inputs, specs=(('Tract.parse', 'TractParser', 'tract_parse'),))
+    ctx.attempt(common.embedded_case_consistency, modules=('rgxlib.aliquots',))
 
 
 def _tables(ctx, base):
